@@ -226,7 +226,9 @@ def gen_case(rng, spawner='POPEN'):
             if rng.random() < 0.35:
                 # a cancel request for the task is delivered right before the
                 # launch step fails: it is pending when the error is handled
+                # (or, for a step after the spawn, served completely already)
                 spec['cancel'] = 'at_poison'
+                spec['served'] = rng.random() < 0.5
         elif r < 0.60 or ending == 'long':
             k = rng.choice(['before_intake', 'in_spawn_before',
                             'in_spawn_after', 'running', 'running',
@@ -447,6 +449,17 @@ class ExecSim(object):
                             uid not in sim.cancel_requested:
                         sim.cancel([uid], wait=True)
                         sim.hits.add('cancel:at_poison')
+                        if point == 'handle_timeout' and \
+                                sim.specs[uid].get('served'):
+                            # the process exists already: in these histories
+                            # the request is served completely (the task is
+                            # killed and handed over by the control thread)
+                            # before the launch step fails
+                            end = time.time() + 3.0
+                            while time.time() < end and \
+                                    not sim.records()[uid]['handovers']:
+                                _real_sleep(0.005)
+                            sim.hits.add('cancel:served_before_launch_fault')
                     raise Poison('%s failed for %s' % (point, uid))
                 return orig(*a, **k)
             setattr(obj, name, wrapped)
